@@ -10,6 +10,7 @@
 // performs it and records the action.
 #pragma once
 #include "vx_core.hpp"
+#include <setjmp.h>
 #ifdef VX_MSAN
 #include <sanitizer/msan_interface.h>
 #endif
@@ -194,8 +195,10 @@ struct Driver {
 	const void* event = nullptr; // address of the event object handed to react()/query()
 	unsigned long guard_cbs = 0;
 
-	void begin(int ndev_, const uint16_t* pos, const uint16_t* alt) { ndev = ndev_; for (int i = 0; i < ndev_; ++i) { dev_pos[i] = pos[i]; dev_alt[i] = alt[i]; } nch = 0; nev = 0; overflow = diverged = false; guard_cbs = 0; }
-	Ev& push() { if (nev >= budget) { overflow = true; return tr[MAXEV - 1]; } Ev& e = tr[nev++]; memset(&e, 0, sizeof e); return e; }
+	void begin(int ndev_, const uint16_t* pos, const uint16_t* alt) { ndev = ndev_; for (int i = 0; i < ndev_; ++i) { dev_pos[i] = pos[i]; dev_alt[i] = alt[i]; } nch = 0; nev = 0; overflow = diverged = false; guard_cbs = 0; beyond = 0; }
+	// a call that keeps delivering callbacks beyond the budget does not terminate on its own: escape back to the explorer
+	unsigned long beyond = 0; jmp_buf escape; bool escape_armed = false;
+	Ev& push() { if (nev >= budget) { overflow = true; if (++beyond > 8ul * MAXEV && escape_armed) longjmp(escape, 1); return tr[MAXEV - 1]; } Ev& e = tr[nev++]; memset(&e, 0, sizeof e); return e; }
 	unsigned choose(unsigned m) {
 		if (m <= 1 || mode == DM_QUIET) return 0;
 		if (nch >= MAXCH) { overflow = true; return 0; }
